@@ -88,6 +88,14 @@ def main(args):
                 ctx.output_path, task_id.path, f.task_output_dir(task_id, version)
             )
             dest_task_path.parent.mkdir(parents=True, exist_ok=True)
+            # N.B. None of the archive's versions is recorded in this project
+            # (the duplicate check above passed). So anything at this path is
+            # an unrecorded leftover (e.g., of a restore that was interrupted),
+            # which `cond gc` would remove as well.
+            if dest_task_path.is_symlink() or dest_task_path.is_file():
+                dest_task_path.unlink()
+            elif dest_task_path.is_dir():
+                shutil.rmtree(dest_task_path)
             # Symbolic links inside task outputs are restored as links.
             shutil.copytree(src_task_path, dest_task_path, symlinks=True)
             if not dest_task_path.is_dir():
